@@ -693,12 +693,16 @@ pub fn build(prog: &Program) -> Result<Built, Infeasible> {
                         regs += &format!(" {}: .cfa {} - ^", a.cfi_name(names[r], al), (r as u64 + 2) * p);
                     }
                 }
+                // The rules in effect are those of the frame's LOOKUP address: the exact pc for the context frame
+                // (at + 0x10), the return address minus the call adjustment for every other frame (return address
+                // at + 0x20). A record that begins exactly at the return address (the row after the call) is not
+                // yet in effect, and an INIT range that ends exactly there still covers the call.
                 if st[i].split {
                     *s += &format!("STACK CFI INIT {:x} 100 .cfa: {} {} + .ra: .cfa {} - ^\n", at, spn, p, p);
                     *s += &format!("STACK CFI {:x} .cfa: {} {} +{}\n", at + 4, spn, size[i] * p, regs);
-                    *s += &format!("STACK CFI {:x} .cfa: {} 0 + .ra: 0\n", at + 0x80, spn);
+                    *s += &format!("STACK CFI {:x} .cfa: {} 0 + .ra: 0\n", at + if i == 0 { 0x11 } else { 0x20 }, spn);
                 } else {
-                    *s += &format!("STACK CFI INIT {:x} 100 .cfa: {} {} + .ra: .cfa {} - ^{}\n", at, spn, size[i] * p, p, regs);
+                    *s += &format!("STACK CFI INIT {:x} {:x} .cfa: {} {} + .ra: .cfa {} - ^{}\n", at, if i == 0 { 0x100 } else { 0x20 }, spn, size[i] * p, p, regs);
                 }
             }
             Tech::Leaf => {
